@@ -305,6 +305,11 @@ func (v *DeliverScopeVariables) Set(s context.Scope, name, operator string, val 
 			return errors.WithStack(err)
 		}
 		return nil
+	case ESI_ALLOW_INSIDE_CDATA:
+		if err := doAssign(v.ctx.EsiAllowInsideCData, operator, val); err != nil {
+			return errors.WithStack(err)
+		}
+		return nil
 	case REQ_ESI:
 		if err := doAssign(v.ctx.EnableSSI, operator, val); err != nil {
 			return errors.WithStack(err)
